@@ -15,8 +15,10 @@ AlphaQ == {0, 1, 6}
 AlphaT == {0, 1, 3, 6}
 CapsQ  == {0, 2}
 CapsT  == 0..2
+CapsZ  == {0}
 GrowsQ == {1, 2}
 PresQ  == {0, 2}
+PresG  == {2}
 GenInit == Init /\ hist = <<obs>>
 GenNext == Next /\ hist' = Append(hist, obs')
 GenSpec == GenInit /\ [][GenNext]_<<vars, hist>>
